@@ -860,7 +860,8 @@ func (e *Enc) evalBinary(n *ast.BinaryExpr, env *Env) Val {
 func (e *Enc) intArithContract(op token.Token, xt, yt types.Type, A, B string, xv, yv ssa.Value) string {
 	save := e.noSafety
 	e.noSafety = true
-	defer func() { e.noSafety = save }()
+	e.inContractEval = true
+	defer func() { e.noSafety = save; e.inContractEval = false }()
 	if xv == nil {
 		xv = ssa.NewConst(nil, types.Typ[types.UntypedNil])
 	}
